@@ -499,7 +499,15 @@ func cliWork(line string) string {
 				argv = append(argv, "--"+f)
 			}
 		}
-		argv = append(argv, s.args...)
+		for _, a := range s.args {
+			switch a {
+			case "@E":
+				a = "" // an empty argument (an unset variable in a wrapper script): no task is called that
+			case "@B":
+				a = "  "
+			}
+			argv = append(argv, a)
+		}
 		ctx, cancel := context.WithTimeout(context.Background(), 30*time.Second)
 		cmd := exec.CommandContext(ctx, bin, argv...)
 		cmd.Dir = filepath.Join(home, filepath.FromSlash(s.cwd))
@@ -704,7 +712,8 @@ func cliWork(line string) string {
 
 var taskPool = []string{"build", "lint", "docs", "pack", "gen", "vet", "ship"}
 var docPool = []string{"Run the thing", "Second doc", "Compile all of it", "Makes a package", "X", "Checks style and more", "needs >= 80% of statements (100%!)", "%d files, %s each %%",
-	"Compile the bindings for C#", "#1 priority", "Usage: make it so:", ": starts with a colon", "a # in the middle", "ends with a dot.", "...", "(in parentheses)", "tilde ~ and 'quotes'"}
+	"Compile the bindings for C#", "#1 priority", "Usage: make it so:", ": starts with a colon", "a # in the middle", "ends with a dot.", "...", "(in parentheses)", "tilde ~ and 'quotes'",
+	"Compiles every binding, then packages all of it for the release and uploads the lot (a long one)"}
 var statusPool = []int{1, 1, 2, 3, 7, 126, 127, 128, 129, 130, 137, 141, 143, 200, 254, 255}
 
 type gen struct {
@@ -908,8 +917,17 @@ func (g *gen) render(vars []varSpec, tasks []taskSpec) string {
 		for _, f := range t.fdeps {
 			deps = append(deps, `"`+f+`"`)
 		}
+		if g.chance(1, 6) {
+			// a glob that matches nothing: no file, no warning, no business of anybody's (not in the spec handed to the model)
+			deps = append(deps, `"zz-none/**/*.zzz"`)
+		}
 		g.rng.Shuffle(len(deps), func(i, j int) { deps[i], deps[j] = deps[j], deps[i] })
-		fmt.Fprintf(&b, "task %s(%s) {\n", t.name, strings.Join(deps, ", "))
+		outs := ""
+		if g.chance(1, 5) {
+			// a declared output below a directory that does not exist: declaring is not creating (nor is running the task)
+			outs = ` -> "zz-out/` + t.name + `/result.bin"`
+		}
+		fmt.Fprintf(&b, "task %s(%s)%s {\n", t.name, strings.Join(deps, ", "), outs)
 		for _, k := range t.cmds {
 			b.WriteString(indent + k.src + "\n")
 		}
@@ -1197,6 +1215,12 @@ func genC03(w *bufio.Writer, g *gen, n int) {
 		}
 		if g.chance(1, 3) {
 			c.steps = append(c.steps, step{cwd: cwd, flags: []string{"clean", "force"}, args: pick(2)})
+		}
+		if i%5 == 0 {
+			// an empty or blank task name (`spok "$UNSET" build`) names no task: an error, and nothing runs
+			blank := []string{"@E", "@B"}[(i/5)%2]
+			c.steps = append(c.steps, step{cwd: cwd, flags: g.pickFlags([][]string{nil, {"force"}, {"json"}}), args: append(pick(1), blank)},
+				step{cwd: cwd, args: []string{blank}})
 		}
 		fmt.Fprintln(w, c.encode())
 	}
